@@ -8,4 +8,5 @@ var readyIDs = map[string]bool{
 	"C01": true, "C02": true, "C09": true, "C10": true, "C22": true, "C24": true, "C29": true, "C53": true,
 	"C31": true, "C50": true, "C54": true, "C57": true, "C52": true, "C56": true,
 	"C05": true, "C16": true, "C17": true, "C39": true, "C40": true,
+	"C33": true, "C34": true, "C35": true,
 }
